@@ -6,10 +6,12 @@
    (makemove clears the flag, not the file): for those the printed FEN parses back to the position with such dead files reset
    (C06_fen_roundtrip_modulo_dead_files; witness C06_dead_file_witness) -- the same chess position, a different record; the
    dead file is not printed and is read only by code that tests the flag first (but see C05_alias_geometry_is_needed).
-   The converse direction (canonical X-FEN string -> same string) is decided by the correspondence run on canonical strings
-   written by an independent printer. *)
+   Second sentence (C06_canonical_string_reprints): the canonical string of a valid position -- the string the printer writes for
+   it -- parses, in either arithmetic mode, to a position that prints as the very same string (the parse resets the dead files,
+   which the printer does not read); C06_canonical_string_of_D_reprints for the positions of D.  "Canonical" is defined through the
+   model's printer; that this printer writes the strings an independent X-FEN printer writes is checked by the correspondence run. *)
 From Coq Require Import NArith ZArith List Bool.
-From Rawr Require Import Consts Bits Magic Position MoveGen MakeMove Fen NotationFacts HashFacts KeyAbs KeyMove MakeStages GenSane Closure FenBoard FenRound FenCastle.
+From Rawr Require Import Consts Bits Magic Position MoveGen MakeMove Fen NotationFacts HashFacts KeyAbs KeyMove MakeStages GenSane Closure FenBoard FenRound FenCastle Abs FenDomain FenCanon.
 Import ListNotations.
 Local Open Scope Z_scope.
 
@@ -68,6 +70,13 @@ Theorem C06_premises_from_the_invariant : forall p, Inv p ->
   (us_ksc p = false -> cf0 p = 7%N) -> (us_qsc p = false -> cf1 p = 0%N) -> (them_ksc p = false -> cf2 p = 7%N) -> (them_qsc p = false -> cf3 p = 0%N) ->
   validate p = None -> (halfmoves p <= I32_MAX)%Z -> (fullmoves p <= I32_MAX)%Z -> RTC p.
 Proof. exact RTC_of_Inv. Qed.
+Theorem C06_canonical_string_reprints : forall mode p s, RTW p -> get_fen p = Some s ->
+  exists q, set_fen mode (is_frc p) s = Some q /\ get_fen q = Some s /\ q = norm_files p.
+Proof. exact canonical_string_reprints. Qed.
+Theorem C06_canonical_string_of_D_reprints : forall mode p s,
+  in_D p = true -> (halfmoves p <= I32_MAX)%Z -> (fullmoves p <= I32_MAX)%Z -> get_fen p = Some s ->
+  exists q, set_fen mode (is_frc p) s = Some q /\ get_fen q = Some s.
+Proof. exact canonical_string_of_D_reprints. Qed.
 (* a position reached by one legal move in a Chess960 game whose record keeps the file of a lost right: its printed FEN parses
    back with that file at the default *)
 Theorem C06_dead_file_witness : let q := makemove true frc_w (mkMv 5 13 6) in
@@ -87,3 +96,5 @@ Print Assumptions C06_fen_roundtrip.
 Print Assumptions C06_fen_roundtrip_modulo_dead_files.
 Print Assumptions C06_premises_from_the_invariant.
 Print Assumptions C06_dead_file_witness.
+Print Assumptions C06_canonical_string_reprints.
+Print Assumptions C06_canonical_string_of_D_reprints.
